@@ -51,4 +51,79 @@ PROPS = {
         "thorough": {"runs": [q(deadline=1200, watchdog=3600), dict(q(deadline=600, watchdog=3600), variant="chk")],
                      "floor": {"rollbacks": 15000, "distinct_nontrivial": 3000}},
     },
+    "C10": {
+        "eval_counter": "states",
+        "case_counter": "cases",
+        "rule": "case = (grammar biased to JSON strings with maxLength 9..64 / pattern / format / additionalProperties / lazy lexemes, "
+                "vocabulary Vsyn|Vbpe, slice list = default JSON slices or a random nested char-class list accepted by the factory); two engines "
+                "(slices S vs no slices) are driven in lock-step and every pair of masks must be bit-identical (raw words too), together with "
+                "is_accepting, ff tokens, commit results and stop status. evaluations = mask pairs compared. Non-trivial = state where "
+                "last_step_stats().slices_applied > 0 on the sliced engine; distinct by (grammar, history, vocabulary, slice list).",
+        "assumptions": ["ParserFactory::new(.., []) is the unsliced reference path"],
+        "quick": {"runs": [q(deadline=45)], "floor": {"states": 3000, "distinct_nontrivial": 300, "slices_applied": 300}},
+        "thorough": {"runs": [q(deadline=1200, watchdog=3600)], "floor": {"states": 50000, "distinct_nontrivial": 5000}},
+    },
+    "C13": {
+        "eval_counter": "forced_bytes_checked",
+        "case_counter": "cases",
+        "rule": "four workloads: (a) at every state of a walk the bytes reported by compute_ff_bytes are replayed on an independent "
+                "no-forcing single-byte engine fed with the same byte history: at each position that engine's mask must be exactly the one "
+                "forced byte (and not EOS); (b) canonical tokenizers: compute_ff_tokens decodes to a prefix of the forced bytes, every token "
+                "commits, and afterwards is_accepting and the set of acceptable next bytes equal those of the byte engine after the same "
+                "bytes; (c) Constraint with ff_tokens capability: tokens returned by commit_token beyond the sampled one are a prefix of the "
+                "reference forced bytes and commit on a reference matcher; (d) TokenParser::process_prompt on random prompts: "
+                "decode(returned prompt) ++ pending forced bytes == decode(prompt) ++ initially forced bytes. evaluations = forced bytes "
+                "individually confirmed unique. Non-trivial = state with >=1 forced byte (distinct by grammar, byte history, vocabulary) or "
+                "prompt that was actually re-tokenised.",
+        "assumptions": ["the single-byte no-forcing engine is the reference for 'only byte the grammar allows' (its own masks are decided by C01/C04/C05)"],
+        "quick": {"runs": [q(deadline=45)], "floor": {"states_with_forced_bytes": 500, "distinct_nontrivial": 200, "states_with_ff_tokens": 100, "prompt_cases": 200, "constraint_commits": 500}},
+        "thorough": {"runs": [q(deadline=1200, watchdog=3600)], "floor": {"states_with_forced_bytes": 10000, "distinct_nontrivial": 3000}},
+    },
+    "C02": {
+        "eval_counter": "token_checks",
+        "case_counter": "cases",
+        "rule": "case = (grammar, multi-byte vocabulary V, walk); at every state the byte history is replayed on an independent "
+                "single-byte engine E1: stop status and is_accepting must be equal, and for EVERY non-special token t of V: t acceptable on V "
+                "(mask, or validate_tokens under a canonical tokenizer) <=> E1 accepts bytes(t) one at a time (mask for 1 byte, "
+                "validate_tokens over the byte tokens otherwise); additionally a random different segmentation of the same bytes over V is "
+                "committed on a fresh engine and must be accepted and give a bit-identical mask. evaluations = token comparisons. "
+                "Non-trivial = state in which at least one allowed multi-byte token was compared; distinct by (grammar, bytes, vocabulary).",
+        "assumptions": ["special tokens are excluded (compared within one vocabulary only, see C19)"],
+        "quick": {"runs": [q(deadline=45)], "floor": {"states": 3000, "distinct_nontrivial": 800, "resegmentations": 500}},
+        "thorough": {"runs": [q(deadline=1200, watchdog=3600)], "floor": {"states": 50000, "distinct_nontrivial": 10000}},
+    },
+    "C04": {
+        "eval_counter": "mask_bytes_compared",
+        "case_counter": "cases",
+        "rule": "case = regex generated as a harness-owned AST (literals incl. multi-byte UTF-8, classes, negated classes, '.', (?s:.), "
+                "?*+{m,n}{m,}, alternation, (?i), Lark & and guarded ~, %regex substring) entered through from_regex / `start: /rx/` / Lark "
+                "terminal algebra / named terminals / %regex; oracle = reference DFA built from the AST (Thompson + subset construction, "
+                "product/complement, liveness). (1) DFS over ALL byte strings over a <=6-byte alphabet (bytes of the regex's own characters, "
+                "UTF-8 fragments, foreign bytes) up to length 5 (quick) / 7 (thorough): at every node the full 255-byte single-byte mask must "
+                "equal the set of live next bytes and is_accepting must equal DFA acceptance; exhaustive per (regex, alphabet, length) unless "
+                "the node budget truncates (counted); (2) long positive samples drawn from the DFA and single-edit negatives, byte by byte; "
+                "(3) V-loops over Vsyn/Vbpe: mask[t] == live(delta*(q, bytes(t))) for every token. evaluations = (state, next byte) comparisons "
+                "in the DFS. Non-trivial = regex with >=3 operators whose DFA has >=4 live states; distinct by grammar text.",
+        "assumptions": ["ref_dfa is the oracle; it is itself cross-checked against the `regex` crate on the plain fragment (./check selftest)",
+                        "byte 0xFF (special-token marker) is excluded from comparisons"],
+        "quick": {"runs": [q(deadline=45)], "floor": {"cases": 800, "distinct_nontrivial": 300, "dfs_nodes": 50000, "vloop_token_checks": 200000}},
+        "thorough": {"runs": [q(deadline=1500, watchdog=3600)], "floor": {"cases": 15000, "distinct_nontrivial": 5000}},
+    },
+    "C05": {
+        "eval_counter": "mask_bytes_compared",
+        "case_counter": "cases",
+        "rule": "case = context-free grammar in Lark syntax over non-confusable terminals (literals with pairwise different first bytes, "
+                "disjoint single-byte classes): random EBNF (empty productions, left/right/mutual recursion, ambiguity, ? * + {m,n}, groups), "
+                "hand-written (arithmetic, brackets, a^n b^n, hidden left recursion, ambiguous), parametric templates (permutations, "
+                "at-least-once, bounded counters, pick m..n, a*b* with length bound). Oracle = byte-level Earley recogniser on the harness's "
+                "own plain-BNF copy (EBNF lowered, parametric rules expanded over reachable (rule, value) pairs). DFS over ALL byte strings "
+                "over the grammar's alphabet (<=6 bytes) up to length 6 (quick) / 8 (thorough): full 255-byte single-byte mask == reference "
+                "next-byte set, is_accepting == derivability; plus long sentences byte by byte and V-loops over a grammar-specific "
+                "multi-byte vocabulary (mask[t] == prefix+bytes(t) viable). evaluations = (state, next byte) comparisons in the DFS. "
+                "Non-trivial = grammar whose DFS visited >=8 viable prefixes and >=1 complete string; distinct by grammar text.",
+        "assumptions": ["ref_earley is the oracle (textbook algorithm, nullable handling by Aycock-Horspool)",
+                        "grammars with unproductive reachable symbols are tagged `unproductive` and judged separately"],
+        "quick": {"runs": [q(deadline=45)], "floor": {"cases": 800, "distinct_nontrivial": 300, "dfs_nodes": 50000, "vloop_token_checks": 50000}},
+        "thorough": {"runs": [q(deadline=1500, watchdog=3600)], "floor": {"cases": 15000, "distinct_nontrivial": 5000}},
+    },
 }
